@@ -12,6 +12,8 @@
 (*    bip                      a built-in goal (incl. `!`) executed        *)
 (*    not                      the outcome of a not(...)                   *)
 (*    ret                      the reply: some?, the answer, the text      *)
+(*    panic / crash / hang     the engine did not return from the request  *)
+(*    truncated                the recorder's event budget was used up     *)
 (* The machine is deterministic: TraceNext takes the machine's next step;  *)
 (* a step that corresponds to an event must find exactly that event next   *)
 (* in the trace, and every event must be consumed.  All invariants of the  *)
@@ -23,9 +25,12 @@ CONSTANT Depth
 
 VARIABLES l,         \* position in the trace
           runs,      \* runs accepted so far
-          verdict    \* "ok" | "rejected"
+          verdict,   \* "ok" | "done"
+          nrej,      \* runs rejected so far (each is reported; validation goes on with the next run)
+          expect     \* what the reference search (SLD.tla) says the requests of this run observe;
+                     \* over = the run is outside the claimed fragment (computed once per run)
 
-tvars == <<svars, l, runs, verdict>>
+tvars == <<svars, l, runs, verdict, expect, nrej>>
 
 (* the trace is read once, into a TLC register (evaluating the deserialiser at    *)
 (* every reference would re-read the file)                                         *)
@@ -70,7 +75,7 @@ Load(r) ==
     /\ acts' = {} /\ steps' = 0 /\ fireAt' = 0 /\ crSeen' = 0 /\ lastAct' = "Load"
 
 TraceInit ==
-    /\ l = 1 /\ runs = 0 /\ verdict = "ok"
+    /\ l = 1 /\ runs = 0 /\ verdict = "ok" /\ nrej = 0 /\ expect = [over |-> TRUE, segs |-> <<>>]
     /\ prog = <<>> /\ query = Cx("none", <<>>) /\ nodes = <<>> /\ stack = <<>> /\ ret = NoneR
     /\ nextId = 0 /\ stop = FALSE /\ outbuf = <<>> /\ hist = <<>> /\ phase = "fresh"
     /\ acts = {} /\ steps = 0 /\ fireAt = 0 /\ crSeen = 0 /\ lastAct = ""
@@ -81,14 +86,26 @@ TEv == Rec[l]
 StartRun ==
     /\ verdict = "ok" /\ phase \in {"fresh", "idle", "outside"} /\ More /\ TEv.e = "program"
     /\ Load(TEv)
+    /\ LET st == Stream(UnpackProg(TEv.prog), Unpack(TEv.query), Depth) IN
+       expect' = IF HasE(st, "over") THEN [over |-> TRUE, segs |-> <<>>]
+                 ELSE [over |-> FALSE, segs |-> Segments(st, Unpack(TEv.query), <<>>)]
     /\ l' = l + 1
     /\ runs' = IF phase = "idle" THEN runs + 1 ELSE runs
-    /\ UNCHANGED verdict
+    /\ UNCHANGED <<verdict, nrej>>
 
 TAsk ==
     /\ verdict = "ok" /\ phase = "idle" /\ More /\ TEv.e = "ask"
     /\ Ask
-    /\ l' = l + 1 /\ UNCHANGED <<runs, verdict>>
+    /\ l' = l + 1 /\ UNCHANGED <<runs, verdict, expect, nrej>>
+
+(* answers are compared with numbers in canonical form (2 is 1*2^1 in the recorder's projection) *)
+RECURSIVE NormDeep(_), NormDeepSeq(_)
+NormDeep(t) == CASE t.k \in {"int", "flt"} -> NormNum(t)
+                 [] t.k \in {"cx", "fn"} -> [t EXCEPT !.a = NormDeepSeq(t.a)]
+                 [] t.k = "list" -> [t EXCEPT !.a = NormDeepSeq(t.a), !.t = NormDeepSeq(t.t)]
+                 [] OTHER -> t
+NormDeepSeq(ts) == IF ts = <<>> THEN <<>> ELSE <<NormDeep(Head(ts))>> \o NormDeepSeq(Tail(ts))
+SameAnswer(logged, b) == NormDeepSeq(UnpackSeq(logged)) = NormDeepSeq(AnswerOf(query, b))
 
 RECURSIVE ConcatAll(_)
 ConcatAll(ss) == IF ss = <<>> THEN "" ELSE Head(ss) \o ConcatAll(Tail(ss))
@@ -97,9 +114,9 @@ TRet ==
     /\ verdict = "ok" /\ phase = "run" /\ stack = <<>> /\ More /\ TEv.e = "ret"
     /\ Reply
     /\ TEv.some = ret.some
-    /\ (ret.some => UnpackSeq(TEv.ans) = AnswerOf(query, ret.b))
+    /\ (ret.some => SameAnswer(TEv.ans, ret.b))
     /\ TEv.out = ConcatAll(outbuf)
-    /\ l' = l + 1 /\ UNCHANGED <<runs, verdict>>
+    /\ l' = l + 1 /\ UNCHANGED <<runs, verdict, expect, nrej>>
 
 (* which machine steps correspond to an event of the implementation            *)
 WillTryClause == At("cx", "C2") /\ ~(TN.noBack /\ ~Bug_ClauseLoopIgnoresCut) /\ TN.ruleIdx < TN.nRules
@@ -112,11 +129,12 @@ KeyText(t) == t.s \o "/" \o ToString(Len(t.a))
 Silent ==
     /\ verdict = "ok" /\ SRunning /\ ~Emits
     /\ SolverStep
-    /\ UNCHANGED <<l, runs, verdict>>
+    /\ UNCHANGED <<l, runs, verdict, expect, nrej>>
 
 EventStep ==
     /\ verdict = "ok" /\ Emits /\ More
     /\ SolverStep
+    /\ phase' # "outside"
     /\ IF WillTryClause
        THEN /\ TEv.e \in {"resolve", "headfail"}
             /\ TEv.key = KeyText(TN.goal.t)
@@ -126,62 +144,100 @@ EventStep ==
        ELSE IF WillRunBip
        THEN /\ TEv.e = "bip" /\ TEv.f = TN.goal.f
        ELSE /\ TEv.e = "not" /\ TEv.ok = (lastAct' = "NotSucceeds")
-    /\ l' = l + 1 /\ UNCHANGED <<runs, verdict>>
+    /\ l' = l + 1 /\ UNCHANGED <<runs, verdict, expect, nrej>>
 
-(* the run left the claimed fragment (occurs check needed, a built-in outside its  *)
-(* documented domain): its remaining events are skipped, nothing is concluded       *)
+(* the machine's next step leaves the claimed fragment (an occurs check would be    *)
+(* needed, a built-in is called outside its documented domain): nothing is said      *)
+(* about what the engine does there, no event is consumed                            *)
+OutsideStep ==
+    /\ verdict = "ok" /\ Emits
+    /\ SolverStep
+    /\ phase' = "outside"
+    /\ UNCHANGED <<l, runs, verdict, expect, nrej>>
+
+(* ... and the remaining events of such a run are skipped, nothing is concluded      *)
 SkipRun ==
     /\ verdict = "ok" /\ phase = "outside" /\ More /\ TEv.e # "program"
     /\ l' = l + 1
-    /\ UNCHANGED <<svars, runs, verdict>>
+    /\ UNCHANGED <<svars, runs, verdict, expect, nrej>>
+
+LeaveRun == /\ phase' = "outside"
+            /\ UNCHANGED <<prog, query, nodes, stack, ret, nextId, stop, outbuf, hist, acts, steps, fireAt, crSeen, lastAct>>
+
+(* the engine panicked, crashed or hung: that is a behaviour of the specification    *)
+(* only for a program outside the claimed fragment (the reference search itself      *)
+(* exceeds the depth budget or leaves the documented domain)                         *)
+CanDie == phase \in {"idle", "run"} /\ More /\ TEv.e \in {"panic", "crash", "hang"} /\ expect.over
+Died ==
+    /\ verdict = "ok" /\ CanDie
+    /\ LeaveRun
+    /\ l' = l + 1 /\ UNCHANGED <<runs, verdict, expect, nrej>>
+
+CanSilent == SRunning /\ ~Emits
+(* the recorder stopped recording this run (event budget): the prefix was checked    *)
+CanTrunc == phase \in {"idle", "run"} /\ More /\ TEv.e = "truncated" /\ ~CanSilent
+Truncated ==
+    /\ verdict = "ok" /\ CanTrunc
+    /\ LeaveRun
+    /\ l' = l + 1 /\ UNCHANGED <<runs, verdict, expect, nrej>>
 
 (* nothing above is possible although the trace or the machine has not ended:    *)
-(* the execution is not a behaviour of the specification                         *)
+(* the execution is not a behaviour of the specification.  The run is reported   *)
+(* and abandoned; validation goes on with the next run.                          *)
 CanStart == phase \in {"fresh", "idle", "outside"} /\ More /\ TEv.e = "program"
 CanAsk   == phase = "idle" /\ More /\ TEv.e = "ask"
 CanRet   == /\ phase = "run" /\ stack = <<>> /\ More /\ TEv.e = "ret" /\ TEv.some = ret.some
-            /\ (ret.some => UnpackSeq(TEv.ans) = AnswerOf(query, ret.b))
+            /\ (ret.some => SameAnswer(TEv.ans, ret.b))
             /\ TEv.out = ConcatAll(outbuf)
-CanSilent == SRunning /\ ~Emits
 CanSkip  == phase = "outside" /\ More /\ TEv.e # "program"
 AtEnd    == phase \in {"idle", "outside"} /\ ~More
 Stuck ==
     /\ verdict = "ok"
-    /\ ~CanStart /\ ~CanAsk /\ ~CanRet /\ ~CanSilent /\ ~CanSkip /\ ~AtEnd
-    /\ ~ENABLED EventStep
+    /\ ~CanStart /\ ~CanAsk /\ ~CanRet /\ ~CanSilent /\ ~CanSkip /\ ~AtEnd /\ ~CanDie /\ ~CanTrunc
+    /\ ~ENABLED EventStep /\ ~ENABLED OutsideStep
     /\ PrintT(<<"REJECTED", [at |-> l, runs_ok |-> runs, exhausted |-> (\E i \in DOMAIN hist : ~hist[i].some),
                              retdiff |-> IF More /\ TEv.e = "ret" /\ phase = "run" /\ stack = <<>>
                                          THEN (IF TEv.some # ret.some THEN "some"
-                                               ELSE IF ret.some /\ UnpackSeq(TEv.ans) # AnswerOf(query, ret.b) THEN "ans" ELSE "out")
+                                               ELSE IF ret.some /\ ~SameAnswer(TEv.ans, ret.b) THEN "ans" ELSE "out")
                                          ELSE "",
                              event |-> IF More THEN ToJson(TEv) ELSE "end of trace",
                              model |-> IF stack # <<>> THEN [pc |-> STop.pc, kind |-> TN.kind, goal |-> ToJson(TN.goal)]
                                        ELSE [pc |-> "-", kind |-> phase, goal |-> ""]]>>)
-    /\ verdict' = "rejected"
-    /\ UNCHANGED <<svars, l, runs>>
+    /\ nrej' = nrej + 1
+    /\ IF More
+       THEN LeaveRun /\ UNCHANGED <<l, runs, verdict, expect>>          \* skip the rest of this run
+       ELSE verdict' = "done" /\ UNCHANGED <<svars, l, runs, expect>>    \* the trace ended in the middle of a run
 
 Finished ==
     /\ verdict = "ok" /\ phase \in {"idle", "outside"} /\ ~More
-    /\ PrintT(<<"ACCEPTED", runs + 1, l - 1>>)
-    /\ verdict' = "accepted"
-    /\ UNCHANGED <<svars, l, runs>>
+    /\ PrintT(<<"VALIDATED", IF phase = "idle" THEN runs + 1 ELSE runs, nrej, l - 1>>)
+    /\ verdict' = "done"
+    /\ UNCHANGED <<svars, l, runs, expect, nrej>>
 
-TraceNext == StartRun \/ TAsk \/ TRet \/ Silent \/ EventStep \/ SkipRun \/ Stuck \/ Finished
+TraceNext == StartRun \/ TAsk \/ TRet \/ Silent \/ EventStep \/ OutsideStep \/ SkipRun \/ Died \/ Truncated \/ Stuck \/ Finished
 TraceSpec == TraceInit /\ [][TraceNext]_tvars
 
 (* ---------------- what is checked on the recorded execution ---------------- *)
-(* the cut properties of Solver.tla, on every step of a run                        *)
+(* These are properties of the MACHINE on the program of the recorded run (they    *)
+(* cannot be broken by the implementation, whose divergence shows as a rejected    *)
+(* run): a violation means that Solver.tla itself is wrong for that program.        *)
 TCutCommits   == [][lastAct' = "Load" \/ CutCommitsStep]_tvars
 TNoRetry      == [][lastAct' = "Load" \/ NoRetryStep]_tvars
 TCutIsLocal   == [][lastAct' = "Load" \/ CutLocalStep]_tvars
-NotRejected == verdict # "rejected"
-(* the answers the real engine returned are those of the reference search        *)
+(* FreshIsFresh / NodesAcyclic of Solver.tla, evaluated on the nodes created last: nodes are     *)
+(* only ever appended (at most a handful per step), their goal and bindings never change         *)
+(* afterwards, and the id counter never decreases, so this checks every node                     *)
+Newest(i) == i > Len(nodes) - 8
+TFresh   == \A i \in DOMAIN nodes : Newest(i) =>
+              \A id \in IdsOfSeq(GoalTerms(nodes[i].goal)) \cup IdsOfBind(nodes[i].ss) : id <= nextId
+TAcyclic == \A i \in DOMAIN nodes : Newest(i) => Acyclic(nodes[i].ss)
+(* the machine's replies are those of the reference search: each reply, when it    *)
+(* is given, equals the reference's segment at that position (earlier replies      *)
+(* were checked when they were given)                                              *)
 TraceRefines ==
-    (phase = "idle" /\ lastAct \in {"Answer", "NoMore"}) =>
-        LET st == Stream(prog, query, Depth) IN
-        HasE(st, "over") \/
-        LET ex == Segments(st, query, <<>>) IN
-        \A i \in DOMAIN hist :
-            hist[i] = (IF i <= Len(ex) THEN ex[i] ELSE [out |-> <<>>, ans |-> <<>>, some |-> FALSE])
+    (phase = "idle" /\ lastAct \in {"Answer", "NoMore"} /\ hist # <<>>) =>
+        \/ expect.over
+        \/ LET i == Len(hist) IN
+           hist[i] = (IF i <= Len(expect.segs) THEN expect.segs[i] ELSE [out |-> <<>>, ans |-> <<>>, some |-> FALSE])
 
 =============================================================================
